@@ -56,6 +56,8 @@ package message
 //@   requires b.outgoingBlocks != nil && block != nil
 //@   modifies b.blkSize, b.outgoingBlocks[*]
 //@   ensures b.blkSize == old(b.blkSize) + blockLen(block)
+//@   ensures blkCid(block) in b.outgoingBlocks && b.outgoingBlocks[blkCid(block)] == block
+//@   ensures forall c cid.Cid :: c != blkCid(block) ==> (c in b.outgoingBlocks) == old(c in b.outgoingBlocks) && b.outgoingBlocks[c] == old(b.outgoingBlocks[c])
 //@ -- C03: one metadata entry is appended to this request's list, after what is there; nothing else changes
 //@ pred metaLen(b *Builder, r graphsync.RequestID) := ite(r in b.outgoingResponses, len(b.outgoingResponses[r]), 0)
 //@ func Builder.AddLink
